@@ -18,6 +18,17 @@ import (
 // with 1-3 structural edits; returns the text, the edits and the base name.
 func mutatedDoc(idx int, r *lib.Rand, fixtures map[string][]byte) (text []byte, edits []string, base string) {
 	var tree map[string]any
+	if idx%5 == 2 {
+		// a valid generated specification with ONE small edit against the Swagger schema (nothing else is wrong with
+		// it, so whether the library notices that one place decides whether the document is accepted)
+		g := &gen.SpecGen{R: r, Tag: fmt.Sprintf("s%d", idx%7), NoRefs: idx%2 == 0}
+		tree = g.Clean()
+		e := gen.SchemaEdit(r, tree)
+		if e == "" {
+			e = "none"
+		}
+		return gen.JSON(tree), []string{"schema-edit " + e}, "generated-clean"
+	}
 	if idx%3 == 0 && len(fixtures) > 0 {
 		names := make([]string, 0, len(fixtures))
 		for k := range fixtures {
